@@ -213,9 +213,9 @@ var probes = map[string][2]string{
 	"String.prototype.indexOf":              {`"abcab".indexOf("b") + "|" + "abcab".indexOf("b", 2) + "|" + "a".indexOf("z")`, "1|4|-1"},
 	"String.prototype.lastIndexOf":          {`"abcab".lastIndexOf("b") + "|" + "abcab".lastIndexOf("b", 3) + "|" + "a".lastIndexOf("z")`, "4|1|-1"},
 	"String.prototype.localeCompare":        {`"a".localeCompare("a") + "|" + ("a".localeCompare("b") < 0) + "|" + ("b".localeCompare("a") > 0)`, "0|true|true"},
-	"String.prototype.match":                {`"a1b22".match(/\d+/g).join() + "|" + "a1b22".match(/(\d)(\d)/)[2] + "|" + "x".match(/y/)`, "1,22|2|null"},
+	"String.prototype.match":                {`"a1b22".match(/\d+/g).join() + "|" + "a1b22".match(/(\d)(\d)/)[2] + "|" + "x".match(/y/) + "|" + "abc".match().length + "|" + "abc".match()[0].length`, "1,22|2|null|1|0"},
 	"String.prototype.replace":              {`"aXbX".replace("X", "-") + "|" + "aXbX".replace(/X/g, "-")`, "a-bX|a-b-"},
-	"String.prototype.search":               {`"abc".search(/c/) + "|" + "abc".search("z")`, "2|-1"},
+	"String.prototype.search":               {`var re = /a/g; re.lastIndex = 3; "abc".search(/c/) + "|" + "abc".search("z") + "|" + "abca".search(re) + "|" + re.lastIndex + "|" + "abc".search() + "|" + "xundefined".search(undefined)`, "2|-1|0|3|0|0"},
 	"String.prototype.slice":                {`"abcd".slice(1, -1) + "|" + "abcd".slice(3, 1) + "|"`, "bc||"},
 	"String.prototype.split":                {`"a,b,c".split(",", 2).join("|") + "#" + "ab".split("").length`, "a|b#2"},
 	"String.prototype.substring":            {`"abcd".substring(3, 1) + "|" + "abcd".substring(-1, 2)`, "bc|ab"},
